@@ -16,6 +16,8 @@ from harness.frames import CodeView, FakeFrame, ListLogger, RETURN_OPS, YIELD_OP
 from harness.values import Grammar, build_value, show
 from vfix import funcs as F
 
+from engine import verdicts as _V
+
 import monkeytype.tracing as T
 from monkeytype.tracing import CallTracer
 from monkeytype.typing import get_type
@@ -52,6 +54,16 @@ class ScriptedRandom:
         self.calls.append(n)
         return d
 
+    def __getattr__(self, name):
+        # any other function of the random module: the stub models randrange only, so a tracer that draws in another way
+        # (random.random(), getrandbits ...) cannot be judged here -- inconclusive, neither a pass nor a violation
+        if name.startswith("__"):
+            raise AttributeError(name)
+        self.unmodelled = name
+        raise AttributeError(f"ScriptedRandom does not model random.{name}")
+
+    unmodelled = None
+
     def __ch_deep_realize__(self, memo):
         return self
 
@@ -67,11 +79,14 @@ def sampling_body(t, rate, d0, d1, d2, d3, max_pairs=2):
     else:
         ASSUME(rate >= 2)
         r = rate
-    func = (F.gen_rebinding, F.mod_func, F.gen_func)[t.take(3)]
+    func = (F.gen_rebinding, F.mod_func, F.gen_func, F.coro_func)[t.take(4)]
+    is_coro = func is F.coro_func  # its suspensions are awaits: never yields, but the frame is suspended and resumed all the same
     names = func.__code__.co_varnames[: func.__code__.co_argcount]
     entry = {n: build_value(t, G_ATOM) for n in names}
     n_pairs = t.take(max_pairs + 1) if func is not F.mod_func else 0
     rebinding = t.take(2) == 1 if n_pairs else False
+    # the first resumption may be a throw() that the body handles: CPython then delivers the exception as the call event's arg
+    thrown = t.take(2) == 1 if n_pairs else False
     yields = [build_value(t, G_ATOM) for _ in range(n_pairs)]
     final = t.take(2)  # 0 = returns a value, 1 = exits by exception
     ret_val = build_value(t, G_ATOM) if final == 0 else None
@@ -95,11 +110,13 @@ def sampling_body(t, rate, d0, d1, d2, d3, max_pairs=2):
                 # the body rebinds its parameter (and creates locals) between yields
                 fr.f_locals[names[0]] = [i, "rebound"]
                 fr.f_locals["tmp"] = i
-            tracer(fr, "call", None)
+            tracer(fr, "call", ValueError("thrown in, handled by the body") if (thrown and i == 0) else None)
         fr.f_code.co_code = [RETURN_OP if final == 0 else RAISE_OP]
         tracer(fr, "return", ret_val)
     finally:
         T.random = saved
+    if rnd.unmodelled:
+        return _V.INCONCLUSIVE(f"the tracer draws with random.{rnd.unmodelled}, which the environment stub does not model (only random.randrange)")
     ASSUME(not rnd.bad)
     # --- oracle
     if r is None or r == 0 or r == 1:
@@ -122,7 +139,7 @@ def sampling_body(t, rate, d0, d1, d2, d3, max_pairs=2):
     for n, v in entry.items():
         if not O.struct_eq(tr.arg_types[n], get_type(v, 0)):
             return check(False, lambda: f"argument {n}: logged {O.show_type(tr.arg_types[n])}, the call's argument was {show(v)}")
-    want_y = Union[tuple(get_type(y, 0) for y in yields)] if yields else None
+    want_y = Union[tuple(get_type(y, 0) for y in yields)] if (yields and not is_coro) else None
     if (want_y is None) != (tr.yield_type is None) or (want_y is not None and not O.struct_eq(tr.yield_type, want_y, True)):
         return check(False, lambda: f"yield type {O.show_type(tr.yield_type)} != {O.show_type(want_y)}")
     if final == 0:
@@ -183,6 +200,8 @@ def two_frames_body(t, rate, d0, d1, d2, d3):
                 finished.append(idx)
     finally:
         T.random = saved
+    if rnd.unmodelled:
+        return _V.INCONCLUSIVE(f"the tracer draws with random.{rnd.unmodelled}, which the environment stub does not model")
     ASSUME(not rnd.bad)
     for fr in frames:
         left = residue(tracer, fr)
@@ -263,6 +282,8 @@ def abandon_body(t, rate, d0, d1, d2, d3):
         tracer(fb, "return", ret_b)
     finally:
         T.random = saved
+    if rnd.unmodelled:
+        return _V.INCONCLUSIVE(f"the tracer draws with random.{rnd.unmodelled}, which the environment stub does not model")
     ASSUME(not rnd.bad)
     new = logger.traces[logged_before:]
     if not (r is None or r == 1) and draws_b != 1:
@@ -303,8 +324,8 @@ def _mk(name, tape_n, **kw):
     tape_harness(name, [("t", tape_n)], {"rate": "int", "d0": "int", "d1": "int", "d2": "int", "d3": "int"}, body, globals())
 
 
-_mk("sampling_quick", 14, max_pairs=2)
-_mk("sampling_thorough", 16, max_pairs=3)
+_mk("sampling_quick", 15, max_pairs=2)
+_mk("sampling_thorough", 17, max_pairs=3)
 
 
 def shards(name):
